@@ -43,7 +43,7 @@ REG.add(Contract(f"{MRA}.assert_applies", module=M_MRA, kind="method", params=di
                  properties=["C07", "C13", "C15"]))
 
 # ---------------------------------------------------------------- ModulePrefixer (string view)
-vals.declare_obj("ParsedDependencies", dict(all_modules="Set[Str]", dependencies="Dict[Str,Set[Str]]"))
+vals.declare_obj("ParsedDependencies", dict(all_modules="Set[Node]", dependencies="Dict[Node,Set[Node]]"))   # Node = Str in the string view
 REG.ctors["ParsedDependencies"] = None
 
 
@@ -114,11 +114,96 @@ REG.add(Contract(f"{PP}._unify", module=M_DP, kind="method", view="string",
 M_D2R = "pytestarch.diagram_extension.dependency_to_rule_converter"
 vals.declare_obj("DependencyToRuleConverter", dict(_should_only_rule="Bool"))
 D2R = "DependencyToRuleConverter"
+# the class object DefaultRuleMatcher as a value (the same constant the engine uses for the global name, cf. Registry.global_value)
+REG.specfuns["class_DefaultRuleMatcher"] = lambda eng, st: V(("opaque", "Class"), z3.Const("class_DefaultRuleMatcher", vals.sort_of(("opaque", "Class"))))
 REG.add(Contract(f"{D2R}._generate_rule", module=M_D2R, kind="method", params=dict(self=D2R, importer="Node", importees="Set[Node]"), returns="Rule",
                  # C07: 'a imports exactly its drawn targets': subject a (by name), verb should_only in the default mode / should otherwise, direction import, objects = the drawn targets
                  ensures=["forall(Filter, lambda f: (f in unwrap(result._configuration.modules_to_check)) == (f == mk_filter_name(importer)))",
                           "not is_none(result._configuration.modules_to_check)", "not is_none(result._configuration.modules_to_check_against)",
                           "forall(Filter, lambda f: (f in unwrap(result._configuration.modules_to_check_against)) == exists(Node, lambda t: (t in importees) and f == mk_filter_name(t)))",
                           "result._configuration.should_only == self._should_only_rule", "result._configuration.should == (not self._should_only_rule)", "not result._configuration.should_not",
-                          "result._configuration.import_ == True", "not result._configuration.except_present", "not result._configuration.rule_object_anything"],
+                          "result._configuration.import_ == True", "not result._configuration.except_present", "not result._configuration.rule_object_anything",
+                          "result._modules_to_check_to_be_specified_next == False", "result._rule_matcher_class == class_DefaultRuleMatcher()",
+                          "result == rule_rec(importer, name_filters(importees), not self._should_only_rule, self._should_only_rule, False)"],
+                 properties=["C07"]))
+
+# ---------------------------------------------------------------- DependencyToRuleConverter: the LIST of generated rules (C07)
+# A list of Rule objects is modelled as the bag of the records (snapshots) of its elements; every Rule in these lists is a temporary built by one
+# call chain, so its snapshot is its final state (the engine refuses to store a record that is still reachable under a name).
+
+
+def _set_fn(name, params, elem, elem_type, body):
+    """speclib.set_function for parameters that are records / dicts (flattened into their component terms):
+    name(params) = {elem | body} as ONE uninterpreted symbol with its definitional axiom (conservative extension)."""
+    from pyvc.vals import parse_type, sort_of, to_term
+    ptypes = {k: parse_type(v) for k, v in params.items()}
+    et = parse_type(elem_type)
+    rng = z3.ArraySort(sort_of(et), z3.BoolSort())
+    state = {}
+
+    def fn(eng, st, *args):
+        vs = [eng.reg.as_membership(eng, a) if t[0] in ("bag", "set") else eng.typed(a, t) for a, t in zip(args, ptypes.values())]
+        terms = [t for v in vs for t in eng.reg.flatten(v)]
+        if "f" not in state:
+            state["f"] = z3.Function(name, *[t.sort() for t in terms], rng)
+        if name not in eng.axioms_used:
+            eng.axioms_used[name] = z3.BoolVal(True)
+            saved_bound, saved_spec, saved_q = dict(eng.bound), eng.spec, getattr(eng, "qdepth", 0)
+            eng.spec, eng.qdepth = True, 80
+            try:
+                pvs = {pn: eng.bvar("ax!" + pn, pt) for pn, pt in ptypes.items()}
+                ev_ = eng.bvar("ax!" + elem, et)
+                eng.bound = dict(pvs)
+                eng.bound[elem] = ev_
+                eng.qdepth = 81
+                from pyvc.state import State as _S
+                b = eng.truth(eng.ev1(eng.reg.parse_spec(body), _S()))
+                consts = [c for v in pvs.values() for c in eng.reg.consts_of(v)] + eng.reg.consts_of(ev_)
+                app = z3.Select(state["f"](*[t for v in pvs.values() for t in eng.reg.flatten(v)]), to_term(ev_))
+                eng.axioms_used[name] = z3.ForAll(consts, app == b, patterns=[app])
+            finally:
+                eng.bound, eng.spec, eng.qdepth = saved_bound, saved_spec, saved_q
+        return V(("bag", et), state["f"](*terms))
+
+    REG.specfuns[name] = fn
+    return fn
+
+
+PD = "ParsedDependencies"
+# the name filters of a set of components / of one component
+_set_fn("name_filters", dict(T="Set[Node]"), "f", "Filter", "exists(Node, lambda t: (t in T) and f == mk_filter_name(t))")
+_set_fn("one_filter", dict(a="Node"), "f", "Filter", "f == mk_filter_name(a)")
+# not_drawn(pd, a) = the OTHER components that a has NO arrow to:  K - {a} - T(a)
+REG.macro("is_not_drawn", ["pd", "a", "t"], "(t in pd.all_modules) and t != a and not ((a in pd.dependencies) and (t in pd.dependencies[a]))")
+_set_fn("not_drawn", dict(pd=PD, a="Node"), "t", "Node", "is_not_drawn(pd, a, t)")
+# rule_rec(a, O, s, so, sn): THE record of a finished rule 'modules named a <verb> import modules <O>': subject = exactly the component a (by name),
+# direction import, the verb flags, no 'except', no 'anything', default matcher, object side closed. Every field is fixed, so equality with it pins the whole Rule.
+REG.macro("rule_rec", ["a", "O", "v_should", "v_should_only", "v_should_not"],
+          "new(Rule, _rule_matcher_class=class_DefaultRuleMatcher(), _modules_to_check_to_be_specified_next=False, _configuration=new(RuleConfiguration, "
+          "modules_to_check=one_filter(a), modules_to_check_against=O, should=v_should, should_only=v_should_only, should_not=v_should_not, "
+          "except_present=False, import_=True, rule_object_anything=False))")
+# R+(a): the positive rule of a component with arrows: objects = exactly its drawn targets, should_only in the default mode / should otherwise
+REG.macro("rule_pos", ["pd", "a", "so"], "rule_rec(a, name_filters(pd.dependencies[a]), not so, so, False)")
+# R-(a): the should_not rule of a component: objects = exactly the other components it has no arrow to
+REG.macro("rule_neg", ["pd", "a"], "rule_rec(a, name_filters(not_drawn(pd, a)), False, False, True)")
+REG.macro("has_neg", ["pd", "a"], "exists(Node, lambda t: is_not_drawn(pd, a, t))")
+REG.macro("pos_rules_are", ["R", "pd", "so"], "forall(Rule, lambda r: (r in R) == exists(Node, lambda a: (a in pd.dependencies) and r == rule_pos(pd, a, so)))")
+REG.macro("neg_rules_are", ["R", "pd", "K"], "forall(Rule, lambda r: (r in R) == exists(Node, lambda a: (a in K) and has_neg(pd, a) and r == rule_neg(pd, a)))")
+REG.add(Contract(f"{D2R}.__init__", module=M_D2R, kind="method", params=dict(self=D2R, should_only_rule="Bool"), returns="None", modifies=["self"],
+                 ensures=["self._should_only_rule == should_only_rule"], properties=["C07"]))
+REG.add(Contract(f"{D2R}._convert_should_rules", module=M_D2R, kind="method", params=dict(self=D2R, dependencies=PD), returns="Bag[Rule]",
+                 # C07: exactly one positive rule per component with arrows, towards exactly its drawn targets, verb by mode
+                 ensures=["pos_rules_are(result, dependencies, self._should_only_rule)"], properties=["C07"]))
+REG.add(Contract(f"{D2R}._convert_should_not_rules", module=M_D2R, kind="classmethod", params=dict(parsed_dependencies=PD), returns="Bag[Rule]",
+                 # C07: for EVERY component (with or without arrows) one should_not rule towards exactly the other components it has no arrow to
+                 # (none when it has an arrow to every other component)
+                 ensures=["neg_rules_are(result, parsed_dependencies, parsed_dependencies.all_modules)"],
+                 locals=dict(rules="Bag[Rule]", imported="Set[Node]", all_other_modules="Set[Node]", not_imported="Set[Node]", sorted_not_imported="Bag[Node]"),
+                 loops={0: dict(sig="for possible_importer in sorted(parsed_dependencies.all_modules)", invariant=["neg_rules_are(rules, parsed_dependencies, seen)"])},
+                 properties=["C07"]))
+REG.add(Contract(f"{D2R}.convert", module=M_D2R, kind="method", params=dict(self=D2R, dependencies=PD), returns="Bag[Rule]",
+                 # C07: the rule list is exactly {R+(a) | a has arrows} + {R-(a) | a in K, K - {a} - T(a) non-empty}
+                 ensures=["forall(Rule, lambda r: (r in result) == (exists(Node, lambda a: (a in dependencies.dependencies) and r == rule_pos(dependencies, a, self._should_only_rule)) or "
+                          "exists(Node, lambda a: (a in dependencies.all_modules) and has_neg(dependencies, a) and r == rule_neg(dependencies, a))))"],
+                 locals=dict(should_rules="Bag[Rule]", should_not_rules="Bag[Rule]"),
                  properties=["C07"]))
